@@ -1089,15 +1089,21 @@ impl CodegenContext {
                         Identifier::new(format!("$macro_{}", self.next_macro_scope_id));
                     self.next_macro_scope_id += 1;
 
+                    // The arguments are evaluated in the scope of the invocation, and not in the scope of the macro itself,
+                    // since there they could refer to the macro's own arguments and 'super' would be one level off
+                    let mut arg_values = vec![];
+                    for (expr, _) in args.iter() {
+                        arg_values.push(
+                            self.evaluate_expression(expr, true)?
+                                .unwrap_or(SymbolData::Placeholder),
+                        );
+                    }
+
                     self.with_scope(&macro_scope, None, |s| {
                         for (idx, arg_name) in def.args.iter().enumerate() {
-                            let (expr, _) = args.get(idx).unwrap();
-
-                            // Regardless if evaluation succeeds, we should create the macro argument symbol here, because
+                            // Regardless if evaluation succeeded, we should create the macro argument symbol here, because
                             // it will be undefined otherwise
-                            let value = s
-                                .evaluate_expression(expr, true)?
-                                .unwrap_or(SymbolData::Placeholder);
+                            let value = arg_values.get(idx).unwrap().clone();
                             s.add_symbol(
                                 &arg_name.data,
                                 s.symbol(arg_name.span, value, SymbolType::MacroArgument),
